@@ -425,6 +425,7 @@ def run_reconfigure(rng, obs):
     if which == 'discrete':
         S1 = sorted(set(rng.choice([-7.0, -3.5, -1.0, 0.0, 0.5, 2.0, 2.5, 4.0, 8.0]) for _ in range(rng.randint(1, 5))))
         S2 = sorted(set(rng.choice([-6.0, -2.0, 1.0, 3.0, 7.5]) for _ in range(rng.randint(1, 4))))
+        if rng.random() < 0.6: rng.shuffle(S1); rng.shuffle(S2)          # a sample set is a set: the order it is listed in (constructor or setter) does not matter
         f = mc.discrete(list(S1), index=A)(ident)
         fresh = lambda S, I: mc.discrete(list(S), index=I)(ident)
         cur = {'S': S1, 'I': A}
